@@ -2,6 +2,7 @@ package main
 
 import (
 	"fmt"
+	"go/token"
 	"go/types"
 	"os"
 	"path/filepath"
@@ -27,6 +28,7 @@ type World struct {
 	SpecSigs map[string]SpecSig   // SMT spec functions from /verif/spec/*.smt2
 	SpecText string
 	SpecItems []SpecItem
+	Alias    map[string]string // stable alias of anonymous functions -> SSA name
 	LoadSecs float64
 }
 
@@ -139,6 +141,35 @@ func LoadWorld(repo, verif string, patterns []string) (*World, error) {
 		return nil, err
 	}
 	w.CS = cs
+	// anonymous functions are addressed as "<pkg>.@<file>:<n>" (n-th function literal of that file in source order),
+	// which does not move when unrelated init functions are added elsewhere in the package
+	w.Alias = map[string]string{}
+	type anon struct {
+		fn  *ssa.Function
+		pos token.Pos
+	}
+	byFile := map[string][]anon{}
+	for fn := range ssautil.AllFunctions(prog) {
+		if fn.Parent() == nil || !fn.Pos().IsValid() || !strings.HasPrefix(pkgPathOf(fn), repoModule) {
+			continue
+		}
+		ps := prog.Fset.Position(fn.Pos())
+		k := pkgPathOf(fn) + ".@" + filepath.Base(ps.Filename)
+		byFile[k] = append(byFile[k], anon{fn, fn.Pos()})
+	}
+	for k, list := range byFile {
+		sort.Slice(list, func(i, j int) bool { return list[i].pos < list[j].pos })
+		for i, a := range list {
+			w.Alias[fmt.Sprintf("%s:%d", k, i+1)] = a.fn.String()
+		}
+	}
+	for alias, real := range w.Alias {
+		if c := cs.Funcs[alias]; c != nil {
+			c.Key = real
+			cs.Funcs[real] = c
+			delete(cs.Funcs, alias)
+		}
+	}
 	// spec prelude
 	specs, _ := filepath.Glob(filepath.Join(verif, "spec", "*.smt2"))
 	sort.Strings(specs)
